@@ -12,7 +12,10 @@ LEVEL = 'exploration'
 DECIDING = ['c01:ok', 'c01:valueerror_out_of_range']
 RULE = ('cases = corpus files (jedi sources, test/completion, test/refactor, test/static_analysis, '
         'stdlib sample; whole or a 120-line window) after 0-4 random small edits (prefix cut, '
-        'delete/insert/replace of hostile tokens, line ops, CR/CRLF) or token soups; each x N '
+        'delete/insert/replace of hostile tokens, line ops, CR/CRLF), token soups, call prefixes being '
+        'typed, or small programs over the operator x operand-kind matrix (binary / augmented / unary '
+        'operators on literals of every builtin kind, instances with and without operator methods, '
+        'classes, builtins, unknown names); each x N '
         'in-range positions (biased to identifier ends, dots, brackets, the edit site) x every '
         'Script query method x attribute sweep of every returned object, plus 7 just-outside '
         'positions x every positional method. A case is non-trivial when at least 20 API calls '
@@ -31,7 +34,7 @@ def plan(tier, seed):
     for i in range(n):
         rnd = random.Random('%s/C01/plan/%d' % (seed, i))
         r_ = rnd.random()
-        kind = 'soup' if r_ < 0.06 else 'callprefix' if r_ < 0.14 else 'file'
+        kind = 'soup' if r_ < 0.06 else 'callprefix' if r_ < 0.14 else 'opmatrix' if r_ < 0.22 else 'file'
         specs.append({'id': 'c01-%d' % i, 'kind': kind,
                       'file_index': rnd.randrange(len(files)),
                       'nmut': rnd.choice([0, 1, 1, 1, 2, 2, 3, 4]), 'npos': npos,
@@ -71,6 +74,81 @@ ARG_TEMPLATES = ['(', '(a.b =', '(x[0]=', '(g()=', '(a, -b=', '(*', '(**', '(a='
                  '([x for', '(a if', '(a, b=c.d', '("s" %', '(a)(', '(a).b(', '(a[', '(a:=', '(a=1, b', '(1, 2, ',
                  '(a, *b, c=', '(**k, ', '(a.', '(a, b.c(', '(not ', '(-', '(a == ', '(a.b ==', '(f"{', '(a,)(',
                  '(yield', '(await ', '(x for x in', '(a=b=', '(=', '(,', '(a,,', '(a=,', '(*, ', '(a: int', '(a -> ']
+
+
+OPERANDS = ['1', '2.5', '2j', "'s'", "b'b'", '[1]', '(1, 2)', '{1: 2}', '{1}', 'None', 'True', 'Money(3)',
+            'Plain()', 'Fraction(1, 3)', 'len', 'int', 'unknown_name', 'Money', 'range(3)', '[x for x in (1,)]']
+BINOPS = ['+', '-', '*', '/', '//', '%', '**', '@', '<<', '>>', '&', '|', '^', '==', '!=', '<', '>', '<=',
+          '>=', 'in', 'not in', 'is', 'is not', 'and', 'or']
+AUGOPS = ['+=', '-=', '*=', '/=', '//=', '%=', '**=', '@=', '<<=', '>>=', '&=', '|=', '^=']
+OPM_PRELUDE = '''from fractions import Fraction
+
+
+class Money:
+    def __init__(self, v):
+        self.v = v
+
+    def __add__(self, o):
+        return Money(o)
+
+    __radd__ = __rsub__ = __sub__ = __mul__ = __rmul__ = __add__
+
+    def __lt__(self, o):
+        return True
+
+
+class Plain:
+    pass
+
+
+'''
+
+
+def run_opmatrix(spec):
+    """Small (mostly valid) programs over the operator x operand-kind matrix: binary, augmented
+    and unary operators applied to literals of every builtin kind, instances with and without
+    operator methods, classes, builtins and an unknown name; every query at every result name."""
+    import os
+    from vf.driver import digest
+    rnd = random.Random(spec['seed'])
+    rec = apimon.Recorder()
+    case_dir = os.path.join(os.environ.get('VERIF_RUN_DIR', '/var/tmp'), 'cases')
+    os.makedirs(case_dir, exist_ok=True)
+    base = OPM_PRELUDE.count('\n')
+    progs = 0
+    for k in range(14):
+        a, b = rnd.choice(OPERANDS), rnd.choice(OPERANDS)
+        form = rnd.choice(['bin', 'aug', 'aug', 'unary', 'chain', 'aug_attr'])
+        if form == 'bin':
+            body = ['a = %s' % a, 'b = %s' % b, 'c = a %s b' % rnd.choice(BINOPS), 'c', 'c.real']
+        elif form == 'aug':
+            body = ['a = %s' % a, 'a %s %s' % (rnd.choice(AUGOPS), b), 'a', 'd = a', 'd.real']
+        elif form == 'unary':
+            body = ['a = %s' % a, 'c = %s a' % rnd.choice(['-', '+', '~', 'not']), 'c', 'c.real']
+        elif form == 'chain':
+            body = ['a = %s' % a, 'b = %s' % b, 'c = a %s b %s a' % (rnd.choice(BINOPS), rnd.choice(BINOPS)),
+                    'c', 'c.real']
+        else:
+            body = ['p = Plain()', 'p.field = %s' % a, 'p.field %s %s' % (rnd.choice(AUGOPS), b), 'p.field',
+                    'd = p.field', 'd.real']
+        text = OPM_PRELUDE + '\n'.join(body) + '\n'
+        pos = []
+        for i, l in enumerate(body):
+            if i >= 2 or form in ('aug', 'aug_attr'):
+                pos.append((base + i + 1, len(l)))
+                pos.append((base + i + 1, 1))
+        path = os.path.join(case_dir, '%s-%d.py' % (spec['id'], k))
+        progs += 1
+        sweepwl.run_text(rec, text, path, pos[:8],
+                         methods=['infer', 'complete', 'goto', 'help', 'get_references_file', 'get_names',
+                                  'get_signatures'],
+                         witness={'case': spec['id'], 'program': body}, deep=True)
+    vio = [v for v in rec.violations if v['key'].startswith(('exc:', 'novalueerror:', 'budget:'))]
+    for v in vio:
+        v['witness']['text_tail'] = '\n'.join(v['witness'].get('program') or [])
+    return {'id': spec['id'], 'digest': digest([spec['seed'], progs]),
+            'nontrivial': rec.events.get('c01:ok', 0) >= 20, 'events': rec.events, 'violations': vio,
+            'sample': {'case': spec['id'], 'kind': 'opmatrix', 'programs': progs}}
 
 
 def run_callprefix(spec):
@@ -126,6 +204,8 @@ def run(spec, deciding_prefixes=('exc:', 'novalueerror:', 'budget:'), methods=No
         monitors=(apimon.position_monitor,)):
     if spec.get('kind') == 'callprefix':
         return run_callprefix(spec)
+    if spec.get('kind') == 'opmatrix':
+        return run_opmatrix(spec)
     import os
     from vf.driver import digest
     text, near, rnd = build_text(spec)
